@@ -89,17 +89,47 @@ PROPS = {
     },
     "C09": {
         "module": "ZenonVerif.Props.C09",
-        "streams": [S("ledger", 60, 3000)],
-        "rule": LEDGER_RULE,
-        "partial": "methods of non-token contracts are parameters of the model (status and descendants are observed inputs), so "
-                   "termination / panic-freedom of the Go methods and of the ABI decoder (DESIGN C09-T3..T5) is established by "
-                   "correspondence only; proved: complete-or-exact-refund with the contract's balance delta, the inbox advances by "
-                   "exactly one, the refund of whatever is next in line is always accepted for a non-token contract, and the token "
-                   "contract always has an accepted outcome when the zero token standard has no storage entry (negative witness "
-                   "without it). The model's applySend does not run the destination contract's method lookup / ValidateSendBlock: "
-                   "in Go a refund whose recipient is itself an embedded contract (empty call data) is refused by applySend, so "
-                   "refund_always_possible transfers to the code for non-embedded senders only",
-        "assumptions": ["hashes are opaque identifiers (collision-free)"],
+        "extra_modules": ["ZenonVerif.Props.C09Abi"],
+        "streams": [S("ledger", 60, 3000), S("abi", 4, 400), S("autoreceive", 8, 400, timeout=14400)],
+        "rule": LEDGER_RULE + ". abi stream: one evaluation = one call-data byte string through the REAL decoder "
+                "(ABIContract.UnpackMethod / UnpackEmptyMethod into a reflection-built target of the argument's Go types) "
+                "and through the real ValidateSendBlock of the method object: per round, for every method of every embedded ABI "
+                "(and ABICommon) one canonical encoding with generated arguments and 24 hostile mutations (truncated / extended "
+                "tails, wrong / zero selector, dirty padding of static words, offsets pointing to themselves / to 0 / to another "
+                "argument's data / past the end / 2^31..2^256-1, length words 0 / 1 / l+-1 / huge, element offsets and lengths "
+                "inside string[] / bytes[], flipped bytes, whole words replaced, garbage, two mutations combined); result "
+                "ok <decoded values> <re-packed bytes> | err | panic compared with the Lean decoder/encoder model; monitors: no "
+                "panic, decoder error => ValidateSendBlock error, re-packed data decodes to the same values. autoreceive "
+                "stream: one evaluation = one line: call data of a generated call through the decoder (as above), or one "
+                "produced contract receive block judged by the Lean definition of 'applied, or refunded exactly with unchanged "
+                "storage'; per history one real node under 0/1/2/3 activated sporks with the bridge/liquidity administration, "
+                "tokens, deposits, stakes, fusions, projects, HTLCs set up; for every contract x method the generators canonical "
+                "valid / boundary integers and strings / valid-but-semantically-wrong (unknown ids, foreign and unknown tokens, "
+                "wrong owner, zero and whole-balance amounts) / hostile ABI, each delivered through the template path "
+                "(GenerateFromTemplate) and as an externally built, hashed and signed block through the gossip path "
+                "(ApplyBlock); the harness then makes the producer's calls itself (GenerateMomentum, then for every contract "
+                "SequencerFront + GenerateAutoReceive + insertion, then the contracts' Update calls) under recover; monitors per "
+                "accepted send: no panic / no error on the producer path, exactly one receive, status 1 or status 2 with exact "
+                "refund and byte-identical contract storage, every inbox empty after the loop",
+        "partial": "proved: (ledger model, contract methods as parameters) complete-or-exact-refund with the contract's balance "
+                   "delta, the inbox advances by exactly one, the refund of whatever is next in line is always accepted for a "
+                   "non-token contract, the token contract always has an accepted outcome when the zero token standard has no "
+                   "storage entry; (decoder model) for every byte string and every well-formed argument type list - in "
+                   "particular every method and storage variable of every embedded ABI of the working tree - the ABI decoder "
+                   "returns a value or an error, never a panic (no slice out of range, no int overflow, no allocation larger "
+                   "than the input), selectors are unambiguous; decoding the canonical encoding (what every ValidateSendBlock stores) "
+                   "returns exactly the encoded values for every argument list of static elementary types, string, bytes and "
+                   "slices of those - every method of every embedded ABI (unpack_pack_partial, flat_signatures, "
+                   "receive_decodes_what_send_validated; partial: fixed-size arrays, which no embedded ABI uses, are not "
+                   "covered, and the values are assumed to have the arguments' Go types, HasTys). Termination / "
+                   "panic-freedom of the Go method bodies (DESIGN C09-T4, T5) is established by the autoreceive stream's "
+                   "monitors only (no per-method Lean models). The decoder model bounds slice expressions by len, Go by cap "
+                   "(model panic is necessary, not sufficient, for a Go panic). The ledger model's applySend does not run the "
+                   "destination contract's method lookup: in Go a refund whose recipient is itself an embedded contract "
+                   "(empty call data) is refused by applySend, so refund_always_possible transfers to the code for non-embedded "
+                   "senders only; the autoreceive stream watches every contract-to-contract send for that case",
+        "assumptions": ["hashes are opaque identifiers (collision-free)",
+                        "a Go []byte has at most maxAlloc = 2^48 bytes (runtime invariant on linux/amd64); capacity >= length"],
     },
     "C03": {
         "module": "ZenonVerif.Props.C03",
